@@ -86,7 +86,7 @@ def generate(rng, ctx):
     if kind == "stored":
         case["what"] = rng.choice(["int", "list", "bool", "bytes", "float", "no_method", "no_ct", "ct_int", "ct_bytes",
                                    "ct_none", "bad_pad_b64", "missing_pad_b64", "method_int", "method_list", "unknown_method",
-                                   "short_ct", "unaligned_ct", "empty_dict", "tuple", "not_base64", "foreign_chars_in_b64",
+                                   "short_ct", "unaligned_ct", "empty_dict", "tuple", "not_base64", "foreign_chars_in_b64", "method_bytes", "urlsafe_b64", "method_bytes", "urlsafe_b64",
                                    "text_after_padding"])
     return case
 
@@ -449,6 +449,9 @@ def run(case, ctx, res):
             # text that is not base64 at all, or base64 followed / interrupted by other characters (a lenient decoder drops
             # what it does not know and stops at the first complete padding)
             "not_base64": {"method": sv.method, "ciphertext": "!!!! ???? ####"},
+            # the method named by a byte string; the ciphertext in the URL-safe alphabet ('-' and '_' are no base64 characters)
+            "method_bytes": {"method": sv.method.encode(), "ciphertext": b64},
+            "urlsafe_b64": {"method": sv.method, "ciphertext": b64.replace("+", "-").replace("/", "_")},
             "foreign_chars_in_b64": {"method": sv.method, "ciphertext": "@@@" + b64[:6] + "$$ !" + b64[6:]},
             "text_after_padding": {"method": sv.method, "ciphertext": b64 + ("" if b64.endswith("=") else "==") + "QUJDRA== and more"},
             "unaligned_ct": {"method": "aes", "ciphertext": base64.b64encode(sv.ciphertext + b"zz").decode()
@@ -457,6 +460,8 @@ def run(case, ctx, res):
         field = schema.s
         if what == "missing_pad_b64" and not b64.endswith("="):
             return  # this ciphertext happens to need no padding
+        if what == "urlsafe_b64" and "+" not in b64 and "/" not in b64:
+            return  # this ciphertext reads the same in both alphabets
         err, val = _raises(lambda: field.to_python(cfg, doc))
         feat = "stored/" + what
         if not err:
